@@ -1,6 +1,6 @@
 """What is claimed, per property. A property appears in CLAIMS only once its checker exists and
 passes on the unchanged tree."""
-FIX_COMMITS = ["4e9e139", "5ee6583", "744f482", "eb93a13", "ceb972a", "a924d81", "2127bcd", "d45c8ce", "840f793", "c6f0e0e", "026690a", "cee72dd", "d6006a0", "846c668", "74129bf", "7f18343", "8354688", "82fa6bb", "6319c34", "33ebaa4", "1e65682", "d23cb3d", "8d23fc0", "35e79d8", "36df0dd", "6dde094", "fd9c08b", "1b70461", "8854632", "4974803", "5139c33", "e00fad1", "fbec162", "23eb645", "274cad8", "0023d85", "44adde2", "76b905b", "e323902", "9a6c065", "80ad2cb", "3762e87", "314e3a1", "ea04832", "0bb1cf1", "4f512f3", "a2fb781", "e33bf11", "451dfe4", "f6c4920", "2d8299b", "1f6cd1f", "8050331", "4e55637", "ee3fa38", "04aff6d", "c4e307b", "bdcee01", "3887875", "5e627f5", "ac6e838", "9a6d0ed", "afc71e1", "9ae246a", "20132f0", "73535cf", "440ad6a", "ab740e4", "5939070", "4bdacbc", "f1d8441", "114f63f", "11a422d", "5424fcc", "6ee40c3", "d6451a3", "cd92fce", "61fec09", "017afb1", "093bd0e", "79343b6", "a8dcc46", "fad7d35", "fcce7e9", "2c760f5", "5534d6b", "9a315c0", "8de2d81", "aff81d0", "10adfb2", "c0033f2", "ba27ae5", "d2dc558", "0a59135"]
+FIX_COMMITS = ["4e9e139", "5ee6583", "744f482", "eb93a13", "ceb972a", "a924d81", "2127bcd", "d45c8ce", "840f793", "c6f0e0e", "026690a", "cee72dd", "d6006a0", "846c668", "74129bf", "7f18343", "8354688", "82fa6bb", "6319c34", "33ebaa4", "1e65682", "d23cb3d", "8d23fc0", "35e79d8", "36df0dd", "6dde094", "fd9c08b", "1b70461", "8854632", "4974803", "5139c33", "e00fad1", "fbec162", "23eb645", "274cad8", "0023d85", "44adde2", "76b905b", "e323902", "9a6c065", "80ad2cb", "3762e87", "314e3a1", "ea04832", "0bb1cf1", "4f512f3", "a2fb781", "e33bf11", "451dfe4", "f6c4920", "2d8299b", "1f6cd1f", "8050331", "4e55637", "ee3fa38", "04aff6d", "c4e307b", "bdcee01", "3887875", "5e627f5", "ac6e838", "9a6d0ed", "afc71e1", "9ae246a", "20132f0", "73535cf", "440ad6a", "ab740e4", "5939070", "4bdacbc", "f1d8441", "114f63f", "11a422d", "5424fcc", "6ee40c3", "d6451a3", "cd92fce", "61fec09", "017afb1", "093bd0e", "79343b6", "a8dcc46", "fad7d35", "fcce7e9", "2c760f5", "5534d6b", "9a315c0", "8de2d81", "aff81d0", "10adfb2", "c0033f2", "ba27ae5", "d2dc558", "0a59135", "50d0cbd"]
 
 CLAIMS = {
     "C09": dict(
